@@ -19,6 +19,9 @@ DEVIATIONS = [
     ("ServerReg", "MC_ServerReg_live.cfg", ["FixD15"]),
     ("KeepAlive", "MC_KeepAlive.cfg", ["FixD11", "FixD17"]),
     ("Requestor", "MC_Requestor.cfg", ["RouteByCid"]),
+    ("ServerLife", "MC_ServerLife.cfg", ["LockOrderAsCode", "CloseChannels"]),
+    ("RequestorLife", "MC_RequestorLife.cfg", ["CidNeverReused", "ReconnectKeepsPending"]),
+    ("ReplierLife", "MC_ReplierLife.cfg", ["BindErrorRecoverable"]),
 ]
 
 
